@@ -159,7 +159,13 @@ func (s *Service) AttestAndScheduleAggregate(ctx context.Context, duty *attester
 		return
 	}
 
+	// Committees for which an aggregation job has already been set up.
+	aggregating := make(map[phase0.CommitteeIndex]bool)
 	for _, attestation := range attestations {
+		if aggregating[attestation.Data.Index] {
+			// Another of our attestations has already set up the aggregation for this slot and committee.
+			continue
+		}
 		log := log.With().Uint64("attestation_slot", uint64(attestation.Data.Slot)).Uint64("committee_index", uint64(attestation.Data.Index)).Logger()
 		slotInfoMap, exists := subscriptionInfoMap[attestation.Data.Slot]
 		if !exists {
@@ -213,8 +219,9 @@ func (s *Service) AttestAndScheduleAggregate(ctx context.Context, duty *attester
 				continue
 			}
 			// We are set up as an aggregator for this slot and committee.  It is possible that another validator has also been
-			// assigned as an aggregator, but we're already carrying out the task so do not need to go any further.
-			return
+			// assigned as an aggregator for it, but we're already carrying out the task so do not need to do so again.
+			// Other committees of the slot still need their own aggregation job.
+			aggregating[attestation.Data.Index] = true
 		}
 	}
 }
